@@ -255,10 +255,12 @@ def seeds(seed):
     mem_ios = ["host " + ip(w + 9), f"{ip(w + 128)} 0.0.0.127"]
     mem_nx = ["host " + ip(w + 9), f"{ip(w + 128)}/25"]
     return [
-        ("ios", ["remark = web", f"permit tcp {ip(w)} 0.0.0.255 any eq 80 443",
-                 f"permit tcp host {ip(w + 1)} any eq 443", "remark = dns",
-                 "deny udp any object-group GRP eq 53 log", "permit tcp any any eq 135",
-                 "permit ip any any", "permit icmp any any"],
+        # flat and numbered: reverse / rotate followed by sort() has something to restore, with
+        # remarks standing among the entries
+        ("ios", ["10 remark = web", f"20 permit tcp {ip(w)} 0.0.0.255 any eq 80 443",
+                 f"30 permit tcp host {ip(w + 1)} any eq 443", "40 remark = dns",
+                 "50 deny udp any object-group GRP eq 53 log", "60 permit tcp any any eq 135",
+                 "70 permit ip any any", "80 permit icmp any any"],
          {"GRP": mem_ios}, ""),
         ("nxos", ["10 remark = one", f"20 permit tcp {ip(w)}/24 any eq 22", "30 permit ip addrgroup GRP any",
                   "40 remark = two", f"50 deny ip host {ip(w + 1)} any", "60 permit ip any any"],
